@@ -8,7 +8,12 @@ R2 the H.264 and H.265 converters have identical productions; the iterator yield
 R3 ADTS cut: the validator returns frame[h..L] with h = 7|9 selected by the protection bit (bit 0 of byte 1) and L the 13-bit
    frame length of bytes 3..5 (decided by exhaustive evaluation of the *extracted* expression against the spec formula over all
    byte values), guarded by h <= L <= len(frame).
-Not decided: that the start-code scanner finds exactly the spec's start codes in every byte string (value-level over all strings)."""
+R4 scanner (find_start_code), decided structurally from its exits: the position counter starts at `from` and advances by exactly 1; a
+   hit (i, 3) is returned only under data[i..i+3] == 00 00 01 and a hit (i, 4) only under data[i..i+4] == 00 00 00 01; `None` is
+   returned only when no position is left (i + 3 > len, or the input is shorter than 3 / `from` is past the end) - so no candidate
+   position is skipped at either end.
+Not decided: the interplay of overlapping patterns beyond these exit conditions (that the *first* hit is the right one is implied by
+the step of 1 and the exit conditions)."""
 from .. import flow, guards, mir, sym
 from .. import layout as L
 from . import c04, common
@@ -44,6 +49,93 @@ def check(prog, run):
         run.check(a == b, "R2", "siblings-equal", "identical productions", "annexb_to_avcc and hevc_annexb_to_hvcc differ")
     r2_iter(prog, run)
     r3(prog, run)
+    run.rule("R4", "start-code scanner: step 1 from `from`; hits only under the exact 3-/4-byte patterns; None only when i + 3 > len (or trivially no room)")
+    r4_scanner(prog, run)
+
+
+def r4_scanner(prog, run):
+    from .. import absint as A
+    u = prog.lib
+    fns = [f for f in u.bodies if mir.norm(f).endswith("codec::common::find_start_code")]
+    if len(fns) != 1:
+        run.bad("R4", "anchor find_start_code", "scanner not found")
+        return
+    b = u.bodies[fns[0]]
+    cx = A.Ctx(b, u)
+    # the position counter
+    ctr = None
+    for l, ds in cx.defs.items():
+        if len(ds) == 2 and all(d[0] == "stmt" for d in ds) and b["locals"][l]["ty"] == "usize":
+            es = [sym.expr_rv(b, d[3]["rv"], stop=(l,)) for d in ds]
+            steps = [e for e in es if e[0] == "proj" and e[1][0] == "bin" and e[1][1] == "AddWithOverflow" and e[1][2][:2] == ("var", l)]
+            inits = [e for e in es if e not in steps]
+            if len(steps) == 1 and len(inits) == 1:
+                ctr = (l, inits[0], steps[0][1][3])
+    ok = ctr is not None and ctr[1][:2] == ("arg", 2) and ctr[2][:2] == ("const", 1)
+    run.check(ok, "R4", "scanner counter", "position starts at `from`, advances by 1", "the scan position does not start at the `from` parameter and advance by exactly 1: %s" % (ctr,), mir.loc_of(b))
+    if not ok:
+        return
+    iv = ("var", ctr[0], "i")
+    li = cx.lin(iv)
+    ln = cx.atom(("len", "arg1"), 0, A.LEN_MAX)
+
+    def byte_tests(bb):
+        out = set()
+        for (s_, d, tk) in guards.guards_of(b, bb):
+            if not (d[0] == "bin" and d[1] == "Eq" and d[3][0] == "const" and guards.truth(tk) is True):
+                continue
+            # the compared byte: find the indexed load feeding this switch
+            for st in b["blocks"][s_]["stmts"]:
+                if st["k"] == "assign" and st["rv"]["k"] == "use" and st["rv"]["op"].get("k") == "copy":
+                    pl = st["rv"]["op"]["place"]
+                    ix = [e for e in pl["p"] if e.get("k") == "index"]
+                    if pl["l"] == 1 and len(ix) == 1:
+                        off = cx.lin(sym.expr_local(b, ix[0]["local"])) - li
+                        if off.is_const():
+                            out.add((off.c, d[3][1]))
+        return out
+    want = {3: {(0, 0), (1, 0), (2, 1)}, 4: {(0, 0), (1, 0), (2, 0), (3, 1)}}
+    seen = set()
+    nnone = 0
+    for ex in flow.exits(b):
+        nd = ex["node"]
+        if "rv" not in nd:
+            continue
+        v = sym.expr_rv(b, nd["rv"])
+        if v[0] == "agg" and str(v[1]).endswith("Option::Some"):
+            t = v[3][0]
+            k = t[3][1][1] if (t[0] == "agg" and len(t[3]) == 2 and t[3][1][0] == "const") else None
+            pos_ok = t[0] == "agg" and t[3][0][:2] == ("var", ctr[0])
+            tests = byte_tests(ex["bb"])
+            seen.add(k)
+            run.check(pos_ok and k in want and tests == want[k], "R4", "scanner hit len=%s" % k, "returned only under bytes %s at i" % sorted(want.get(k, ())),
+                      "a start code of length %s at position i is reported under byte tests %s (expected %s)" % (k, sorted(tests), sorted(want.get(k, ()))), mir.loc_of(nd))
+        elif v[0] == "agg" and str(v[1]).endswith("Option::None"):
+            nnone += 1
+            bb = ex["bb"]
+            def any_goal(at):
+                return cx.prove_le0(ln - A.Lin(2), at)[0] or cx.prove_le0(ln - cx.lin(("arg", 2, "from")), at)[0] or cx.prove_le0(ln - li - A.Lin(2), at)[0]
+            good = any_goal(bb)
+            if not good:
+                # a shared early-return block (`a || b`): every edge into it must carry one of the conditions
+                from . import c12
+                edges = c12._incoming_edges(cx, bb)
+                good = bool(edges)
+                for (pb, de, tk) in edges or []:
+                    tr = guards.truth(tk)
+                    cons = cx.cond_constraints(de, tr) if tr is not None else []
+                    cx.extra.extend(cons)
+                    try:
+                        if not (cons and any_goal(pb)):
+                            good = False
+                    finally:
+                        for _ in cons:
+                            cx.extra.pop()
+            triv1 = triv2 = done = good
+            run.check(triv1 or triv2 or done, "R4", "scanner None #%d" % nnone, "None only when len < 3, from >= len, or i + 3 > len",
+                      "`None` is returned on a path where a candidate position may remain (cannot derive i + 3 > len from the exit condition)", mir.loc_of(nd))
+    run.check(seen == {3, 4}, "R4", "scanner forms", "both the 3-byte and the 4-byte form are reported", "the scanner reports start-code lengths %s, expected {3, 4}" % sorted(x for x in seen if x), mir.loc_of(b))
+    run.floor("R4", nnone, 2, "None exits")
 
 
 def converter_shape(segs):
